@@ -3,7 +3,7 @@
    rules (every id written refers to an existing non-empty entry) are judged by tools/c11.py's independent validator on
    the implementation's output, which the pipeline model reproduces byte for byte. *)
 From Coq Require Import String NArith List Bool.
-From RC Require Import lib.Result lib.Bytes model.Layout model.ChkIo model.RichCodec model.RichIo proofs.C11_proofs proofs.Save_sizes proofs.Save_refs proofs.Str_proofs model.Str
+From RC Require Import lib.Result lib.Bytes model.Layout model.ChkIo model.RichCodec model.RichIo proofs.C11_proofs proofs.Save_sizes proofs.Save_refs proofs.C11_upus proofs.C07_triggers proofs.Str_proofs model.Str
   gen.GenLayouts gen.GenConsts.
 Import ListNotations.
 
@@ -83,3 +83,18 @@ Theorem C11_every_string_number_written_refers_to_the_emitted_table :
       (N.of_nat (length (sl_by_id L)) <= 1000000 -> Forall (refs_ok L) d)%N.
 Proof. exact saved_string_references_are_valid. Qed.
 Print Assumptions C11_every_string_number_written_refers_to_the_emitted_table.
+
+(* the slot-usage table agrees with the slots in use: byte k of UPUS is 1 exactly when slot k of UPRP was written from a
+   unit-property set carrying index k+1, and 0 exactly when that slot is the all-zero record *)
+Theorem C11_usage_table_agrees_with_the_unit_property_slots :
+  forall cs us uv k,
+    upus_rebuild cs = Ok us -> uprp_encode cs = Ok uv -> (k < N.to_nat MAX_CUWP_SLOTS)%nat ->
+    (nth_error (vlist "_cuwp_slots_used" us) k = Some (VInt 1) /\
+     exists c slot, assocN_last (N.of_nat k + 1) (cby_idx cs) = Some c /\
+                    nth_error (vlist "_cuwp_slots" uv) k = Some slot /\ cuwp_encode c = Ok slot)
+    \/
+    (nth_error (vlist "_cuwp_slots_used" us) k = Some (VInt 0) /\
+     assocN_last (N.of_nat k + 1) (cby_idx cs) = None /\
+     nth_error (vlist "_cuwp_slots" uv) k = Some empty_cuwp_val).
+Proof. exact upus_agrees_with_uprp. Qed.
+Print Assumptions C11_usage_table_agrees_with_the_unit_property_slots.
